@@ -72,17 +72,24 @@ def step (s : S) (args : List String) (impl : String) : S × Out :=
          h := { ctr0 := c0, ceiling := reject.toNat, increasing := lock == "1" }, wrapped := false },
        { model := "ok", tag := "triv:reset" })
     | none => (s, badOp)
-  | ["lockrace", t, rounds] =>
+  | "lockrace" :: t :: rounds :: rest =>
     match natArg t, natArg rounds with
     | some t, some rounds =>
       if (s.m.pend t).isSome then (s, { model := "skip", tag := "triv:skip" }) else
-      -- whoever wins the lock, each send is one critical section: 3·rounds atomic hot-path sends
-      let (s', k) := (List.range (3 * rounds)).foldl (fun (a : S × Nat) _ =>
-        let s1 := doAdd a.1 false t
+      -- which real send path each of the three sends of a round takes: h = sendInsideEncrypt,
+      -- v = prepareSendVia, c = sendNoMetrics (the latter two reserve through NextMessageCounter)
+      let pat := match rest with
+        | [p] => if p.length == 3 then p.toList else ['h', 'h', 'h']
+        | _ => ['h', 'h', 'h']
+      let kinds := (List.replicate rounds pat).flatten
+      -- whoever wins the lock, each send is one critical section: atomic sends
+      let (s', k) := kinds.foldl (fun (a : S × Nat) kind =>
+        let s1 := doAdd a.1 (kind != 'h') t
         let (s2, r) := doFin s1 t
         (s2, match r with | .sealed _ => a.2 + 1 | _ => a.2)) (s, 0)
       let verdict := if impl.startsWith "disorder" then s!"bad locked-not-monotone {impl}" else "ok"
-      (s', { model := s!"ok sealed={k} ctr={s'.m.ctr.toNat}", verdict := verdict, tag := "lockrace" ++ phase s })
+      (s', { model := s!"ok sealed={k} ctr={s'.m.ctr.toNat}", verdict := verdict,
+             tag := "lockrace:" ++ String.ofList pat ++ phase s })
     | _, _ => (s, badOp)
   | [op, t] =>
     match natArg t with
